@@ -34,7 +34,7 @@ Case(b, op, i, j, op2, i2, pv, pt, rs) ==
     [family |-> "attack", base |-> b, op |-> op, i |-> i, j |-> j, op2 |-> op2, i2 |-> i2, j2 |-> 0,
      prev |-> pv, particle |-> pt, resign |-> rs]
 Singles ==
-    {Case(b, op, i, 0, "none", 0, pv, "same", rs) : b \in Bases, op \in Ops1, i \in Pos, pv \in {"empty", "honest"}, rs \in BOOLEAN}
+    {Case(b, op, i, 0, "none", 0, pv, "same", rs) : b \in Bases, op \in Ops1, i \in Pos, pv \in {"empty", "honest", "fork"}, rs \in BOOLEAN}
     \cup {Case(b, op, i, j, "none", 0, pv, "same", TRUE) : b \in Bases, op \in Ops2, i \in Pos, j \in Pos, pv \in {"empty", "honest"}}
     \cup {Case(b, "none", 0, 0, "none", 0, pv, "other", rs) : b \in Bases, pv \in {"empty", "honest"}, rs \in BOOLEAN}
 Pairs ==
